@@ -449,6 +449,31 @@ func (tu *ToUnicodeFile) Embed(rm *pdf.EmbedHelper) (pdf.Native, error) {
 	return ref, nil
 }
 
+// toUnicodeRangeChunks splits ranges into groups for one beginbfrange
+// operator each.  A group has at most chunkSize entries.  In addition, the
+// groups are kept small enough that a PostScript interpreter with the
+// customary operand stack limit of 500 elements (this includes the reader in
+// this package) can read them: every entry leaves three operands on the
+// stack until endbfrange, and while the destination array of an entry is
+// being read, its elements and a mark are on the stack as well.
+func toUnicodeRangeChunks(x []ToUnicodeRange) [][]ToUnicodeRange {
+	const maxOperands = 400
+
+	var res [][]ToUnicodeRange
+	start := 0
+	for i, r := range x {
+		n := i - start // entries already in the current group
+		if n >= chunkSize || n > 0 && 3*n+3+len(r.Values) > maxOperands {
+			res = append(res, x[start:i])
+			start = i
+		}
+	}
+	if start < len(x) {
+		res = append(res, x[start:])
+	}
+	return res
+}
+
 func toString(obj postscript.Object) (string, error) {
 	dst, ok := obj.(postscript.String)
 	if !ok || len(dst)%2 != 0 {
@@ -489,7 +514,7 @@ var toUnicodeTmplNew = template.Must(template.New("cmap").Funcs(template.FuncMap
 		val := hexString(s.Value)
 		return fmt.Sprintf("<%x> %s", s.Code, val)
 	},
-	"RangeChunks": chunks[ToUnicodeRange],
+	"RangeChunks": toUnicodeRangeChunks,
 	"Range": func(r ToUnicodeRange) string {
 		if len(r.Values) == 1 {
 			return fmt.Sprintf("<%x> <%x> %s", r.First, r.Last, hexString(r.Values[0]))
